@@ -488,10 +488,15 @@ func (s Subtitles) WriteToWebVTT(o io.Writer) (err error) {
 	}
 	c = append(c, []byte("\n\n")...)
 
-	var style []string
-	for _, s := range s.Styles {
-		if s.InlineStyle != nil {
-			style = append(style, s.InlineStyle.WebVTTStyles...)
+	// Styles are processed in a sorted order so that the output doesn't depend on the map iteration order
+	var style, styleIDs []string
+	for id := range s.Styles {
+		styleIDs = append(styleIDs, id)
+	}
+	sort.Strings(styleIDs)
+	for _, id := range styleIDs {
+		if s.Styles[id] != nil && s.Styles[id].InlineStyle != nil {
+			style = append(style, s.Styles[id].InlineStyle.WebVTTStyles...)
 		}
 	}
 
